@@ -113,3 +113,97 @@ prop('C19',
                  'centre / burst method / direction, first_extrema override. Not yet under contract: dimensionality guards of '
                  'the objects, plot-before-fit, axis / progress values of the group functions, first_extrema of find_extrema; '
                  'fs == 0 is rejected only by the external filter.')
+
+BU = 'bycycle.burst.utils.'
+DF = 'bycycle.utils.dataframes.'
+
+prop('C02', level='other', units=[], jobs=['find_extrema'],
+     explanation='Bounded only so far: find_extrema run with the external filter replaced by every enumerated filtered-signal '
+                 'sign pattern x raw signals with ties (padded length <= 7 quick / 9 thorough, sampled), all boundary / pad / '
+                 'first_extrema values, plus the real filter on the corpus, against the first-extremum-per-closed-half-wave '
+                 'reference. The callee-side contract of find_extrema (alternation, boundary) is assumed by C01.')
+
+prop('C03', level='other', units=[], jobs=['find_zerox'],
+     explanation='Bounded only so far: find_zerox on every integer-valued signal over {-1,0,1,2} up to length 6 (quick, sampled) / 7 '
+                 '(thorough) and every alternating extrema sequence, against the half-height / temporal-median / fallback reference.')
+
+prop('C08', level='other',
+     units=[],
+     lemmas=['minrun_monotone', 'minrun_props'],
+     jobs=['min_burst_cycles'],
+     explanation='Lemmas over the definition of minrun proved in pure logic (no False->True, m in {0,1} is the identity on the '
+                 'array, m > n clears everything, idempotence step, monotonicity). The body of check_min_burst_cycles is covered by '
+                 'the bounded stand-in: ALL boolean arrays up to length 10 (quick) / 14 (thorough) x all min_n_cycles in [-1, n+1], '
+                 'random arrays to length 60; its contract (result == minrun(old, m), same object, ValueError iff m < 0) is what '
+                 'C06 / C07 / C16 use.')
+
+prop('C09', level='other',
+     units=[F + 'shape.compute_shape_features', DF + 'rename_extrema_df', F + 'burst.compute_amp_consistency',
+            F + 'burst.compute_monotonicity', F + 'burst.compute_burst_fraction', F + 'burst.compute_burst_features', CF],
+     jobs=['mirror', 'burst_features_small'],
+     trusted=[EXTERNAL['amp'], EXTERNAL['dual']],
+     explanation='The contracts tie BOTH centrings to one spec read against the original signal: the trough-centred table is proved '
+                 'to be the documented function of the cyclepoints of -x found by the peak pipeline, renamed / negated / one-minus '
+                 '(compute_shape_features[trough], rename_extrema_df), and every centring-dependent branch of the burst features is '
+                 'proved against the per-centring spec (C05, C07). The mirror statement itself (two runs compared) is checked on '
+                 'the corpus with exact comparison (bounded job mirror); a lemma-level proof of the relation between the two '
+                 'per-centring specs is not yet built.')
+
+prop('C10', level='other',
+     units=[CF],
+     jobs=['covariance'],
+     explanation='Deductive part: the functional postconditions of compute_features mention fs and f_range only inside the external '
+                 'functions (osc3, amp_by_time, dual_threshold) and the sign/order-based spec functions, so a stray unit dependence '
+                 'fails C04/C05/C07 obligations. The covariance statement itself (two runs compared, powers of two, exact) is '
+                 'bounded: corpus x centring x method x scale factors.')
+
+prop('C11', level='other', units=['bycycle.group.utils.check_kwargs_shape'], jobs=['group_2d'],
+     explanation='Bounded so far: compute_features_2d(axis=0) and BycycleGroup.fit against per-row compute_features for 1..4 (6) '
+                 'pairwise different rows, shared / per-row option lists, n_jobs 1..rows+2, injected per-row delays so that early rows '
+                 'finish last. Deductive: the option-list shape guard.')
+
+prop('C12', level='other', units=['bycycle.group.utils.check_kwargs_shape'], jobs=['group_3d', 'kwargs_shape'],
+     explanation='Bounded so far: all shapes (n0, n1) up to 2x2 (3x3), three axis modes, shared / 1-D / 2-D option lists, against '
+                 'per-signal / per-slice analyses. Deductive: the option-list shape guard (the 2-D-list-with-axis-0/1 hole is a '
+                 'proved must-raise obligation).')
+
+prop('C13', level='other', units=[], jobs=['epoch_df', 'group_epoched'],
+     explanation='Bounded so far: epoch_df exhaustively on synthetic tables (boundaries on cycle ends, empty epochs); '
+                 'compute_features_2d(axis=None) against flattened analysis + epoch_df, single option set and per-epoch lists.')
+
+prop('C14', level='other', units=[CF], jobs=['objects', 'group_2d', 'group_3d'],
+     explanation='Bounded so far: seeded operation sequences on Bycycle objects (fit / recompute_edges / load / threshold edits / '
+                 'attribute access) compared with compute_features, a fresh object and the functional edge recomputation; '
+                 'BycycleGroup mirrors. Deductive: compute_features has an empty frame (modifies = []), which is what makes the '
+                 'stored option dictionaries survive a fit.')
+
+prop('C15', level='other',
+     units=[CF, F + 'shape.compute_shape_features', F + 'shape.compute_durations', F + 'shape.compute_extrema_voltage',
+            F + 'shape.compute_symmetry', F + 'shape.compute_band_amp', F + 'cyclepoints.compute_cyclepoints',
+            F + 'burst.compute_burst_features', F + 'burst.compute_amp_fraction', F + 'burst.compute_amp_consistency',
+            F + 'burst.compute_period_consistency', F + 'burst.compute_monotonicity', F + 'burst.compute_burst_fraction',
+            DF + 'drop_samples_df'],
+     jobs=['purity', 'pipeline:C15'],
+     explanation='Frame obligations (modifies = []) at every store and mutating call of the listed feature functions: a store must '
+                 'reach an object allocated on the path (library allocation behaviour from the assumed numpy / pandas-3 copy-on-write '
+                 'contracts). Not yet under contract: group functions, recompute_edges, limit_df, epoch_df, plotting functions - '
+                 'these are covered by the bounded purity job (call sequences sharing argument objects, deep comparison).')
+
+prop('C16', level='other', units=[F + 'burst.compute_amp_consistency', F + 'burst.compute_period_consistency',
+                                   'bycycle.burst.cycle.detect_bursts_cycles'],
+     lemmas=['minrun_monotone'], jobs=['recompute_edges'],
+     explanation='Bounded so far for recompute_edges / recompute_edge themselves (synthetic tables: every is_burst pattern with '
+                 'False ends up to 6 (8) rows, both centrings; corpus tables). Deductive: the callees (one-sided consistency values, '
+                 're-thresholding) and the lemma that growing q keeps old labels.')
+
+prop('C17', level='other', units=[], jobs=['phase'],
+     explanation='Bounded: every alternating peak/trough placement (gaps >= 2) on arrays up to length 9 (12) with and without '
+                 'midpoints (coinciding with extrema included), plus corpus cyclepoints at several boundaries.')
+
+prop('C18', level='other', units=[DF + 'drop_samples_df'], jobs=['limit_df', 'limit_signal', 'samples_split_flatten'],
+     explanation='Deductive: drop_samples_df (column partition, values unaltered). Bounded so far: limit_df, limit_signal, '
+                 'split_samples_df, flatten_dfs on exhaustive small grids.')
+
+prop('C20', level='other', units=[], jobs=['plots', 'limit_df', 'limit_signal'],
+     explanation='Bounded: the arguments handed to the external drawing routines (ghost log by interception) on corpus tables x '
+                 'sample-grid windows incl. low-truncating grid points; rendered artists are not inspected.')
